@@ -373,6 +373,11 @@ def vary_graph(rng, t):
             if k is not None:
                 sub[2][k] = 0
                 feats.append("partial_crc")
+        if sub[0] and all(x == 1 for x in sub[0]) and rng.random() < 0.4:
+            # one sub-stream per folder: the section may be absent altogether (_real_get_contents installs the default
+            # object, Assign.install_sub; the member CRCs, which Header.write keeps nowhere else, are then unknown)
+            st[0][2] = []
+            feats.append("no_substreams")
     files = t[1][0]
     if files and rng.random() < 0.12:
         for f in files:
@@ -470,7 +475,7 @@ def real_case(ctx, rep, rng, idx):
             for m in members0:
                 m["ctime"] = c06.FT + rng.randrange(10 ** 9) * 10 if rng.random() < 0.7 else None
                 m["atime"] = c06.FT + rng.randrange(10 ** 9) * 10 if rng.random() < 0.7 else None
-        feature = rng.choice([None, None, "partial_vectors", "packpos", "zero_folder", "partial_crc"])
+        feature = rng.choice([None, None, "partial_vectors", "packpos", "zero_folder", "partial_crc", "no_substreams"])
         lay = c06.gen_layout(rng, members0, feature)
         fl = c06.classify(members0, lay)
         if lay.get("pack_crc"):
